@@ -24,6 +24,12 @@ def oracle(case, impl):
     elif impl.get('raised'):
         fails.append(f'engine-raised: {impl["raised"]}: {impl.get("msg")}')
         return fails
+    # a step covers the zero-length interval of its phase: it is handed timestep 0, whatever it is configured with
+    for ev in log:
+        if ev['e'] in ('stepCond', 'stepInvoke') and ev.get('ts') != 0:
+            fails.append(f'timestep: step {tuple(ev["p"])} (poll {ev["k"]} at {ev["t"]}) was handed timestep {ev.get("ts")}; '
+                         f'a step phase covers no time (timestep 0)')
+            break
     applied = {}
     for ev in log:
         if ev['e'] == 'apply':
@@ -73,7 +79,7 @@ def oracle(case, impl):
 
 
 install(globals(), 'C02', view, oracle,
-        gen_opts=dict(steps_ok=False, emit_variants=False, p_quiet=0.2, ts_terms=True, zero_calls=True),
+        gen_opts=dict(max_steps=2, emit_variants=False, p_quiet=0.2, ts_terms=True, zero_calls=True),
         extra_corpus=zero_length_corpus(),
         budget={'quick': 250, 'thorough': 6000},
         rule='scheduler scenarios as for C01, weighted to timesteps that do not divide the run length and to '
